@@ -26,6 +26,11 @@
 // changes are judged only when installed on the common trunk below every fork.  Two further
 // families (lowered threshold WITH Byzantine weight; validator change above a fork point) are
 // run and counted but not judged: the protocol does not promise safety there.
+// Two further judged families (lip14sim.FamPrivate, lip14sim.FamRaised; the soundness argument
+// is next to their definition): a Byzantine-only private branch that lowers the precommit
+// threshold for itself, and a low initial threshold raised on the trunk before the first fork,
+// followed by >= 3 rounds of certified blocks so that the superseded parameters are pruned.
+// Blocks carry aggregate commits (heights in (certified, precommitted] of the parent state).
 package main
 
 import (
@@ -126,6 +131,7 @@ func main() {
 			"honest validators: LIP-0014 fork choice on (header.maxHeightPrevoted, height), strict improvement only; maxHeightGenerated = largest height generated so far",
 			"blocks enter the tree only if header.maxHeightPrevoted equals the parent state's value and the real API.IsHeaderContradictingChain accepts them (what verifyBlock enforces); slots/timestamps are not modelled (any validator may extend any tip at any time)",
 			"judged: precommit threshold >= floor(2W/3)+1 with Byzantine weight < W/3, or lowered precommit threshold with zero Byzantine weight; validator changes only on the common trunk",
+			"judged: lowered threshold on a Byzantine-only private branch never shown to honest validators; low initial threshold raised to floor(2W/3)+1 by a trunk block when no fork exists at or below that block",
 			"not judged (counted): lowered precommit threshold with Byzantine validators; validator change above a fork point",
 		},
 	}, func(c *mon.Ctx) {
@@ -135,6 +141,14 @@ func main() {
 			t := t
 			c.Cases("template/"+t, c.N(1200, 8000), func(k *mon.Case) { runScenario(k, lip14sim.Options{Thorough: thorough, Template: t}) })
 		}
+		// BFT parameters that differ between branches at one height (one liskbft.Module serves all views)
+		c.Cases("private-branch", c.N(1500, 10000), func(k *mon.Case) {
+			runScenario(k, lip14sim.Options{Thorough: thorough, Family: lip14sim.FamPrivate})
+		})
+		// superseded (unsafe) parameters must stay superseded once pruned: long certified trunk, then forks
+		c.Cases("raised-threshold", c.N(1500, 10000), func(k *mon.Case) {
+			runScenario(k, lip14sim.Options{Thorough: thorough, Family: lip14sim.FamRaised})
+		})
 		c.Cases("low-threshold", c.N(1200, 8000), func(k *mon.Case) {
 			runScenario(k, lip14sim.Options{Thorough: thorough, Family: "low-precommit-threshold-no-byz"})
 		})
